@@ -117,6 +117,21 @@ def rand_seq(rng, kind, n):
     if kind == "offset":
         base = int(rng.integers(10, 200))
         return np.clip(base + np.round(rng.normal(0, 4, n)), -255, 255).astype(int) * rng.choice([1, -1])
+    if kind == "bursts":
+        # dense palette restarts: a stretch over a handful of values, then a burst of values not seen before, repeated - more than one new palette per 64
+        # weights (the encoder's bookkeeping of section starts is sized from the weight count)
+        parts = []
+        left = n
+        while left > 0:
+            few = rng.choice(np.arange(-255, 256), int(rng.integers(2, 9)), replace=False)
+            a = rng.choice(few, int(min(left, rng.integers(20, 40))))
+            parts.append(a)
+            left -= len(a)
+            if left > 0:
+                b = rng.choice(np.setdiff1d(np.arange(-255, 256), few), int(min(left, rng.integers(25, 45))), replace=False)
+                parts.append(b)
+                left -= len(b)
+        return np.concatenate(parts)
     raise KeyError(kind)
 
 
@@ -340,6 +355,13 @@ def run_san(case):
                 w = np.asarray(rand_seq(rng, kind, n), dtype=np.int16)
                 f.write(struct.pack("<ii", 1, n) + w.tobytes())
                 expected.append(("raw", [int(x) for x in w], {"kind": kind, "n": n}))
+                if t % 8 == 0:
+                    # appended class (own random stream, so the vectors above are what they always were): dense palette restarts
+                    rb = np.random.default_rng(np.random.SeedSequence([778, case["seed"], t]))
+                    nb = int(rb.choice([58, 64, 100, 130, 260, 600]))
+                    wb = np.asarray(rand_seq(rb, "bursts", nb), dtype=np.int16)
+                    f.write(struct.pack("<ii", 1, nb) + wb.tobytes())
+                    expected.append(("raw", [int(x) for x in wb], {"kind": "bursts", "n": nb}))
             else:
                 req = rand_volume(rng)
                 arr = make_array(rng, req)
